@@ -738,6 +738,17 @@ VC_ENSURES((parser->error_flags == BINSON_ERROR_NONE &&
 #include <stdio.h>
 
 static void _binson_print_cb(binson_parser *parser, uint16_t next_state, void *context)
+VC_REQUIRES(VC_FRESH(parser, sizeof(*parser)) && VC_FRESH(parser->current_state, sizeof(binson_state)) &&
+            VC_FRESH(context, sizeof(uint8_t)))
+VC_REQUIRES(VC_IS_TOKEN_CODE(next_state))
+VC_REQUIRES(next_state == VC_NS_FIELD_NAME ==>
+            (parser->current_state->current_name.bsize <= VC_MAX_RENDER_NAME &&
+             VC_FRESH(parser->current_state->current_name.bptr, parser->current_state->current_name.bsize)))
+VC_REQUIRES((next_state == VC_NS_STRING || next_state == VC_NS_BYTES) ==>
+            (parser->current_state->current_value.string_value.bsize <= VC_MAX_BUF &&
+             VC_FRESH(parser->current_state->current_value.string_value.bptr,
+                      parser->current_state->current_value.string_value.bsize)))
+VC_ASSIGNS(*(uint8_t *) context, vc_prf_events)
 {
 
     binson_state *state = parser->current_state;
@@ -798,7 +809,11 @@ static void _binson_print_cb(binson_parser *parser, uint16_t next_state, void *c
         case BINSON_STATE_PARSED_BYTES:
             printf("\"0x");
             size_t i;
-            for (i = 0; i < state->current_value.bytes_value.bsize; i++) {
+            for (i = 0; i < state->current_value.bytes_value.bsize; i++)
+            VC_LOOP_ASSIGNS(i, vc_prf_events)
+            VC_LOOP_INVARIANT(i <= state->current_value.bytes_value.bsize)
+            VC_DECREASES(state->current_value.bytes_value.bsize - i)
+            {
                 printf("%02x", state->current_value.bytes_value.bptr[i]);
             }
             printf("\"");
@@ -832,6 +847,29 @@ struct _to_string_ctx {
 };
 
 static void _binson_to_string_cb(binson_parser *parser, uint16_t next_state, void *context)
+VC_REQUIRES(VC_FRESH(parser, sizeof(*parser)) && VC_FRESH(parser->current_state, sizeof(binson_state)) &&
+            VC_FRESH(context, sizeof(struct _to_string_ctx)))
+VC_REQUIRES(VC_IS_TOKEN_CODE(next_state))
+VC_REQUIRES(VC_CTX(context)->buffer_size <= VC_MAX_BUF && VC_CTX(context)->buffer_used <= ((size_t) 1 << 40))
+VC_REQUIRES((VC_CTX(context)->buffer == NULL) ? (VC_CTX(context)->buffer_size == 0)
+                                              : VC_FRESH(VC_CTX(context)->buffer, VC_CTX(context)->buffer_size))
+VC_REQUIRES(next_state == VC_NS_FIELD_NAME ==>
+            (parser->current_state->current_name.bsize <= VC_MAX_RENDER_NAME &&
+             VC_FRESH(parser->current_state->current_name.bptr, parser->current_state->current_name.bsize)))
+VC_REQUIRES((next_state == VC_NS_STRING || next_state == VC_NS_BYTES) ==>
+            (parser->current_state->current_value.string_value.bsize <= VC_MAX_RENDER_BYTES &&
+             VC_FRESH(parser->current_state->current_value.string_value.bptr,
+                      parser->current_state->current_value.string_value.bsize)))
+VC_REQUIRES(VC_CTX(context)->buffer_full ==
+            (VC_CTX(context)->buffer_used > 0 && VC_CTX(context)->buffer_used + 1 > VC_CTX(context)->buffer_size))
+VC_ASSIGNS(__CPROVER_object_whole(context), vc_len_sum;
+           VC_CTX(context)->buffer != NULL: __CPROVER_object_whole(VC_CTX(context)->buffer))
+VC_ENSURES(VC_CTX(context)->buffer == VC_OLD(VC_CTX(context)->buffer) &&
+           VC_CTX(context)->buffer_size == VC_OLD(VC_CTX(context)->buffer_size))
+VC_ENSURES(VC_CTX(context)->buffer_used ==
+           VC_OLD(VC_CTX(context)->buffer_used) + (vc_len_sum - VC_OLD(vc_len_sum)))            /*@ used-is-sum */
+VC_ENSURES(vc_len_sum > VC_OLD(vc_len_sum) ==>
+           VC_CTX(context)->buffer_full == (VC_CTX(context)->buffer_used + 1 > VC_CTX(context)->buffer_size)) /*@ full-iff */
 {
 
     binson_state *state = parser->current_state;
@@ -933,7 +971,12 @@ static void _binson_to_string_cb(binson_parser *parser, uint16_t next_state, voi
             }
             ret = 0;
             size_t i;
-            for (i = 0; i < state->current_value.bytes_value.bsize; i++) {
+            for (i = 0; i < state->current_value.bytes_value.bsize; i++)
+            VC_LOOP_ASSIGNS(i, ret, vc_len_sum; ctx->buffer != NULL: __CPROVER_object_whole(ctx->buffer))
+            VC_LOOP_INVARIANT(i <= state->current_value.bytes_value.bsize && ret == 2 * i &&
+                              vc_len_sum == __CPROVER_loop_entry(vc_len_sum) + 2 * i)
+            VC_DECREASES(state->current_value.bytes_value.bsize - i)
+            {
                 ret += snprintf(&pbuf[ret], available, "%02x", state->current_value.bytes_value.bptr[i]);
             }
             ret += snprintf(&pbuf[ret], available, "\"");
